@@ -182,6 +182,9 @@ class C13(Check):
                     if env.mine(i):
                         yield {"arch": sp, "mode": mode, "damage": dmg, "out": "path" if mode == "process" else "factory", "chunk": 64, "sched": [],
                                "concurrent_objects": 1}
+                i += 1
+                if env.mine(i):
+                    yield {"arch": sp, "mode": "process", "damage": dmg, "out": "factory", "chunk": 64, "sched": [], "concurrent_objects": 1}
                 # output to disk with the file-system events as scheduling points; all folders write into one directory that no entry creates
                 if dmg is None:
                     i += 1
@@ -225,7 +228,7 @@ class C13(Check):
                 dmg = None  # the damaged folder holds no selected member: it is skipped, nothing to report
                 out.label("damage-in-skipped-folder")
         mode = case["mode"]
-        outk = "path" if mode == "process" else case["out"]
+        outk = case["out"]  # also in process mode: what a WriterFactory receives must not depend on the mode
         op = case.get("op", "extract")
         if case["arch"].get("longname") and op != "testzip":
             out.skipped = "longname-needs-testzip"
